@@ -16,6 +16,24 @@ NA = {
 PENDING = "check not built yet (pending in this session; see DESIGN §9)"
 
 CHECKS = {
+    "C02": dict(
+        technique="deterministic simulation: two endpoints over a seeded hostile datagram network (loss, duplication, reordering, corruption, truncation, extension, key/nonce desynchronisation, bit-flip storms) with a ledger oracle",
+        category="exploration",
+        text="Seeded search over network fault schedules: sender and receiver sessions of every C AEAD family (one-shot, incremental, masked, SIV, ISAP x three parameter sets) exchange packets through a simulated packet pool that drops, duplicates, reorders, corrupts (single/multi bit in ciphertext, tag, AD), truncates to any length, extends, and desynchronises keys and nonces; every delivery is judged against the ledger of what the sender really encrypted (accept iff identical tuple; plaintext and length on accept; zeroed buffer on one-shot reject). Thorough adds exhaustive single-bit flip storms over ciphertext||tag, AD, nonce and key of short packets. Sampling, not proof.",
+        note="Trusted: ledger model in the harness; 2^-128 accidental forgeries ignored; C++ wrappers are judged under C14/C17, not here.",
+        design="§3 W1, §4 C02"),
+    "C14": dict(
+        technique="deterministic simulation: stream-mode sessions over the simulated network with a 128-bit big-endian counter model; packet i must equal the library's one-shot under N+i",
+        category="exploration",
+        text="Same simulated network as C02, judged for nonce discipline: starting nonces are drawn with every carry-chain length 0..16 (including wrap at 2^128); incremental C sessions must show nonce field = model and ciphertext = one-shot under N+i; C++ objects must encrypt under the model nonce, advance after a successful decrypt and stay put after a failed one (observed behaviourally through retransmits across carries); set_counter/set_nonce(len 0..24) and the C helpers are ordinary session operations. Sampling over histories and fault sequences.",
+        note="Trusted: unsigned __int128 counter model; the library's one-shot functions as substrate; C++ objects whose very first packet is wrong are left to C17.",
+        design="§3 W1, §4 C14"),
+    "C15": dict(
+        technique="deterministic simulation: PRNG device with simulated entropy source (EINTR/EAGAIN/EIO), NV storage faults (errors, short/torn writes) and power loss; twin-tape influence runs; inverse-permutation state oracle",
+        category="exploration",
+        text="Seeded histories of init/fetch/feed/reseed/save/load/ascon_random/free/power-loss on a simulated device: the entropy tape and its faults come from a wrapped getrandom(), the flash page and its faults from the ascon_storage_t callbacks. Oracles are the sentences of the property: same plan twice => same output; flipping one consumed tape byte or one fed byte changes every later block >= 16 bytes; after every init/fetch/feed/reseed/save/load p^-1(state) has a zero rate; a fetch after 16384 produced bytes draws from the source first; every status equals the injected health of source/storage. Sampling over histories x fault sequences.",
+        note="Trusted: harness p^-1 (self-tested against the library at start-up); Linux no-split guarantee for getrandom <= 256 bytes; status convention of random.h as repaired by the F12 fix commit.",
+        design="§3 W3, §4 C15"),
     "C07": dict(
         technique="deterministic simulation: seeded interleaved object histories (chunking, copy, re-init, free, dirty-memory reuse) checked against the library's own single-call form",
         category="exploration",
